@@ -115,15 +115,28 @@ class ObservedCompiler(Compiler):  # noqa: D101
 
                     compiled_net.add_edge(link_parent, obs_node, **source_net[parent][node].copy())
 
-        # Check that there are no stochastic nodes in the ancestors
-        for node in uses_observed:
-            # Use the observed version to query observed ancestors in the compiled_net
-            obs_node = observed_name(node)
-            for ancestor_node in nx.ancestors(compiled_net, obs_node):
-                if '_stochastic' in source_net.nodes.get(ancestor_node, {}):
+        # Check that the observed data that will be evaluated does not depend on
+        # stochastic nodes. Given observed data cuts the dependency on the ancestors.
+        source_names = {observed_name(node): node for node in observable + uses_observed}
+        given = compiled_net.graph.get('observed') or {}
+        needed = nbunch_ancestors(compiled_net, compiled_net.graph.get('outputs', []))
+        for obs_node in source_names:
+            if obs_node not in needed:
+                continue
+            stack = [obs_node]
+            visited = set()
+            while stack:
+                ancestor_node = stack.pop()
+                source_name = source_names.get(ancestor_node, ancestor_node)
+                if ancestor_node in visited or \
+                        (ancestor_node in source_names and source_name in given):
+                    continue
+                visited.add(ancestor_node)
+                if source_net.nodes[source_name]['attr_dict'].get('_stochastic'):
                     raise ValueError("Observed nodes must be deterministic. Observed "
                                      "data depends on a non-deterministic node {}."
-                                     .format(ancestor_node))
+                                     .format(source_name))
+                stack.extend(compiled_net.predecessors(ancestor_node))
 
         return compiled_net
 
